@@ -3,6 +3,7 @@ package main
 import (
 	"errors"
 	"fmt"
+	"os"
 	"sort"
 	"strconv"
 	"strings"
@@ -45,7 +46,9 @@ type fq struct {
 	broken     bool // a hint deadline was missed in this history
 }
 
-func newFQ(workers, depth, inCap int) *fq {
+// handler modes of `new W D C [H]`: 0 recording handler, 1 no RecoveryHandler option, 2 RecoveryHandler(nil),
+// 3 handler that records and then panics.
+func newFQ(workers, depth, inCap, mode int) *fq {
 	f := &fq{
 		started:   make(map[int]int),
 		finished:  make(map[int]int),
@@ -53,17 +56,30 @@ func newFQ(workers, depth, inCap int) *fq {
 		rel:       make(map[int]chan struct{}),
 	}
 	f.subCond = sync.NewCond(&f.mu)
-	f.q = taskqueue.New(taskqueue.Workers(workers), taskqueue.Depth(depth), taskqueue.VerifInCap(inCap),
-		taskqueue.RecoveryHandler(func(err error) {
-			var pe *panicErr
-			id := -1
-			if errors.As(err, &pe) {
-				id = pe.id
-			}
-			f.mu.Lock()
-			f.recovered[id]++
-			f.mu.Unlock()
+	opts := []taskqueue.Option{taskqueue.Workers(workers), taskqueue.Depth(depth), taskqueue.VerifInCap(inCap)}
+	record := func(err error) {
+		var pe *panicErr
+		id := -1
+		if errors.As(err, &pe) {
+			id = pe.id
+		}
+		f.mu.Lock()
+		f.recovered[id]++
+		f.mu.Unlock()
+	}
+	switch mode {
+	case 0:
+		opts = append(opts, taskqueue.RecoveryHandler(record))
+	case 1:
+	case 2:
+		opts = append(opts, taskqueue.RecoveryHandler(nil))
+	case 3:
+		opts = append(opts, taskqueue.RecoveryHandler(func(err error) {
+			record(err)
+			panic("bad recovery handler")
 		}))
+	}
+	f.q = taskqueue.New(opts...)
 	go f.submitter()
 	return f
 }
@@ -144,20 +160,37 @@ func (f *fq) obs() string {
 		showCounts(f.recovered), f.subDone, atomic.LoadInt32(&f.shut))
 }
 
-var hintMisses int
+var (
+	hintMisses int
+	// deadMode: after 3 missed deadlines the rest of the stream is not run (the answers are the token that the
+	// comparison skips): the queue under test hangs, the verdict is decided, and the check must stay short
+	deadMode bool
+)
+
+func hintDeadline() time.Duration {
+	if ms := os.Getenv("C15_DEADLINE_MS"); ms != "" { // minimisation runs of a failing history
+		return time.Duration(hx.Atoi(ms)) * time.Millisecond
+	}
+	if hintMisses >= 1 {
+		return 400 * time.Millisecond
+	}
+	return 3 * time.Second
+}
+
+func missed(f *fq) {
+	hintMisses++
+	f.broken = true
+	if hintMisses >= 3 && os.Getenv("C15_DEADLINE_MS") == "" {
+		deadMode = true
+	}
+}
 
 // settle waits for quiescence: with a hint (the model's prediction) until the observable equals the hint, then a grace
 // period to see that nothing extra happens; without (or when the hint is not reached within the deadline) until the
 // observable has been stable for a while.
 func (f *fq) settle(pre, hint string, grace time.Duration) string {
 	if hint != "" && !f.broken {
-		deadline := 6 * time.Second
-		if hintMisses >= 8 { // only on a defective queue: keep the run short, the verdict is already decided
-			deadline = 150 * time.Millisecond
-		} else if hintMisses >= 2 {
-			deadline = 600 * time.Millisecond
-		}
-		end := time.Now().Add(deadline)
+		end := time.Now().Add(hintDeadline())
 		pause := 50 * time.Microsecond
 		for {
 			if pre+f.obs() == hint {
@@ -172,11 +205,10 @@ func (f *fq) settle(pre, hint string, grace time.Duration) string {
 				pause *= 2
 			}
 		}
-		hintMisses++
-		f.broken = true
+		missed(f)
 	}
 	stable := 40 * time.Millisecond
-	end := time.Now().Add(5 * time.Second)
+	end := time.Now().Add(2 * time.Second)
 	last := f.obs()
 	since := time.Now()
 	for {
@@ -239,6 +271,9 @@ func (f *fq) releaseAll() {
 func (f *fq) dispose() {
 	f.releaseAll()
 	end := time.Now().Add(time.Second)
+	if f.broken {
+		end = time.Now().Add(30 * time.Millisecond)
+	}
 	for time.Now().Before(end) {
 		f.mu.Lock()
 		idle := f.subIssued == f.subDone
@@ -287,6 +322,9 @@ const (
 )
 
 func (a *forcedArea) Run(line string) string {
+	if deadMode {
+		return "skipped-after-crash"
+	}
 	op, hint := splitHint(line)
 	w := strings.Fields(op)
 	if len(w) == 0 {
@@ -300,17 +338,20 @@ func (a *forcedArea) Run(line string) string {
 		return "reset"
 	}
 	if w[0] == "new" {
-		if len(w) != 4 {
+		if len(w) != 4 && len(w) != 5 {
 			return "bad-op"
 		}
-		workers, depth, inCap := hx.Atoi(w[1]), hx.Atoi(w[2]), hx.Atoi(w[3])
-		if workers < 1 || inCap < 1 {
+		workers, depth, inCap, mode := hx.Atoi(w[1]), hx.Atoi(w[2]), hx.Atoi(w[3]), 0
+		if len(w) == 5 {
+			mode = hx.Atoi(w[4])
+		}
+		if workers < 1 || inCap < 1 || mode < 0 || mode > 3 {
 			return "bad-op"
 		}
 		if a.cur != nil {
 			a.cur.dispose()
 		}
-		a.cur = newFQ(workers, depth, inCap)
+		a.cur = newFQ(workers, depth, inCap, mode)
 		return "ok"
 	}
 	f := a.cur
@@ -363,11 +404,7 @@ func (a *forcedArea) Run(line string) string {
 			return "bad-op"
 		}
 		f.releaseAll()
-		wait := 6 * time.Second
-		if hintMisses >= 2 {
-			wait = 600 * time.Millisecond
-		}
-		end := time.Now().Add(wait)
+		end := time.Now().Add(hintDeadline())
 		for {
 			f.mu.Lock()
 			done := f.subIssued == f.subDone && len(f.finished) >= f.subIssued
@@ -376,8 +413,7 @@ func (a *forcedArea) Run(line string) string {
 				break
 			}
 			if time.Now().After(end) {
-				f.broken = true
-				hintMisses++
+				missed(f)
 				break
 			}
 			time.Sleep(100 * time.Microsecond)
@@ -397,7 +433,8 @@ func (a *forcedArea) Gen(r *hx.Rng, n int, tier string, emit func(string)) {
 		depth := hx.Pick(r, []int{-1, 0, 0, 1, 1, 2, 3, 100})
 		inCap := hx.Pick(r, []int{1, 1, 2, 3})
 		out("reset")
-		out(fmt.Sprintf("new %d %d %d", workers, depth, inCap))
+		mode := hx.Pick(r, []int{0, 0, 0, 1, 1, 2, 3})
+		out(fmt.Sprintf("new %d %d %d %d", workers, depth, inCap, mode))
 		multi := r.Chance(1, 3) // histories with several actions per line (kept only where the model is schedule-independent)
 		next := 0
 		var unreleased []int
